@@ -1,21 +1,36 @@
 /-
-Concrete operators used by the non-vacuity examples of Props/C20.lean:
-`demoOps` mutates the first container it is handed in place, allocates, and returns handed
-containers (aliasing a fresh cell when there are too few) — and respects any set of start cells;
-`rogueOps` additionally overwrites cell 0 whatever it is handed (it "kept a reference" to a start
-container), which violates the frame condition.
+Concrete operators, states and schedules used by the non-vacuity examples of Props/C20.lean.
+`demoOps` mutates in place the first object *below* the first container it is handed (or the
+container itself), allocates, and returns handed containers (aliasing a fresh cell when there are too
+few) — and respects any region; `rogueOps` additionally overwrites cell 0 whatever it is handed (it
+"kept a reference" into a start container), which violates the frame condition.
 -/
 import PybropsModel.Lemmas.ProgramShape
 set_option autoImplicit false
+set_option linter.unusedVariables false
 
 namespace Program
 namespace Demo
 
-/-- in-place mutation of the first handed container -/
-def bump (h : Heap Nat) (as : List Ref) : Heap Nat :=
+/-- in-place mutation of the data of one cell (its references stay) -/
+def mutAt (h : Heap (Cell Nat)) (m : Nat) : Heap (Cell Nat) :=
+  match h[m]? with
+  | some c => h.set m { c with data := c.data + 1 }
+  | none => h
+
+/-- the object the demo operators mutate: the first child of the first argument, else the argument -/
+def target (h : Heap (Cell Nat)) (as : List Ref) : Option Nat :=
   match as with
-  | a :: _ => h.set a (h.getD a 0 + 1)
-  | [] => h
+  | a :: _ =>
+    match h[a]? with
+    | some c => some (c.refs.headD a)
+    | none => none
+  | [] => none
+
+def bump (h : Heap (Cell Nat)) (as : List Ref) : Heap (Cell Nat) :=
+  match target h as with
+  | some m => mutAt h m
+  | none => h
 
 def pick (as : List Ref) (fresh : Ref) (off : Nat) : List Ref :=
   (List.range 5).map (fun i => as.getD (i + off) fresh)
@@ -23,28 +38,83 @@ def pick (as : List Ref) (fresh : Ref) (off : Nat) : List Ref :=
 def demoOps : Ops Unit Nat where
   op := fun k _ h as _ _ =>
     match k with
-    | .pselect => ((), bump h as ++ [7], h.length :: pick as h.length 0)
-    | .mate => ((), bump h as ++ [7], pick as h.length 1)
-    | _ => ((), bump h as ++ [7], pick as h.length 0)
+    | .pselect => ((), bump h as ++ [⟨7, []⟩], h.length :: pick as h.length 0)
+    | .mate => ((), bump h as ++ [⟨7, []⟩], pick as h.length 1)
+    | _ => ((), bump h as ++ [⟨7, []⟩], pick as h.length 0)
   log := fun _ _ h _ _ _ _ => ((), h)
-  init := fun _ h => ((), h ++ [1, 2, 3, 4, 5], (List.range 5).map (· + h.length))
+  init := fun _ h => ((), h ++ [⟨1, []⟩, ⟨2, []⟩, ⟨3, []⟩, ⟨4, []⟩, ⟨5, []⟩], (List.range 5).map (· + h.length))
 
 def rogueOps : Ops Unit Nat where
   op := fun k s h as t tm =>
     let r := demoOps.op k s h as t tm
-    (r.1, r.2.1.set 0 99, r.2.2)
+    (r.1, r.2.1.set 0 ⟨99, (r.2.1.getD 0 ⟨0, []⟩).refs⟩, r.2.2)
   log := demoOps.log
   init := demoOps.init
 
-theorem bump_length (h : Heap Nat) (as : List Ref) : (bump h as).length = h.length := by
-  unfold bump; split <;> simp
+/-! ### `mutAt` / `bump` keep the shape of the graph -/
 
-theorem bump_get (h : Heap Nat) (as : List Ref) (x : Ref) (hx : x ∉ as) : (bump h as)[x]? = h[x]? := by
+theorem mutAt_length (h : Heap (Cell Nat)) (m : Nat) : (mutAt h m).length = h.length := by
+  unfold mutAt; split <;> simp
+
+theorem mutAt_ne (h : Heap (Cell Nat)) (m x : Nat) (hx : x ≠ m) : (mutAt h m)[x]? = h[x]? := by
+  unfold mutAt
+  split
+  · simp [hx.symm]
+  · rfl
+
+theorem mutAt_refs (h : Heap (Cell Nat)) (m x : Nat) (c : Cell Nat) (hc : (mutAt h m)[x]? = some c) :
+    ∃ c0, h[x]? = some c0 ∧ c0.refs = c.refs := by
+  by_cases hx : x = m
+  · subst hx
+    unfold mutAt at hc
+    split at hc
+    · rename_i c0 h0
+      have hlt : x < h.length := (List.getElem?_eq_some_iff.mp h0).1
+      rw [List.getElem?_set_self hlt] at hc
+      cases hc
+      exact ⟨c0, h0, rfl⟩
+    · exact ⟨c, hc, rfl⟩
+  · rw [mutAt_ne h m x hx] at hc
+    exact ⟨c, hc, rfl⟩
+
+theorem bump_length (h : Heap (Cell Nat)) (as : List Ref) : (bump h as).length = h.length := by
+  unfold bump; split
+  · exact mutAt_length _ _
+  · rfl
+
+theorem bump_refs (h : Heap (Cell Nat)) (as : List Ref) (x : Nat) (c : Cell Nat) (hc : (bump h as)[x]? = some c) :
+    ∃ c0, h[x]? = some c0 ∧ c0.refs = c.refs := by
+  unfold bump at hc
+  split at hc
+  · exact mutAt_refs _ _ _ _ hc
+  · exact ⟨c, hc, rfl⟩
+
+/-- the mutated object is reachable from the first argument -/
+theorem target_reach (h : Heap (Cell Nat)) (as : List Ref) (m : Nat) (ht : target h as = some m) :
+    ∃ a ∈ as, Reach h a m := by
+  unfold target at ht
+  split at ht
+  · rename_i a rest
+    split at ht
+    · rename_i c hc
+      simp only [Option.some.injEq] at ht
+      subst ht
+      refine ⟨a, by simp, ?_⟩
+      cases hr : c.refs with
+      | nil => simp [List.headD]; exact .refl a
+      | cons r rs =>
+        simp only [List.headD_cons]
+        exact .step hc (by rw [hr]; simp) (.refl r)
+    · cases ht
+  · cases ht
+
+theorem bump_outside (h : Heap (Cell Nat)) (as : List Ref) (x : Nat) (hx : ∀ a ∈ as, ¬ Reach h a x) :
+    (bump h as)[x]? = h[x]? := by
   unfold bump
   split
-  · rename_i a _
-    have : a ≠ x := fun e => hx (by simp [e])
-    simp [this]
+  · rename_i m hm
+    obtain ⟨a, ha, hr⟩ := target_reach h as m hm
+    exact mutAt_ne h m x (fun e => hx a ha (e ▸ hr))
   · rfl
 
 theorem pick_mem (as : List Ref) (fresh : Ref) (off : Nat) : ∀ a ∈ pick as fresh off, a ∈ as ∨ a = fresh := by
@@ -61,74 +131,215 @@ theorem pick_mem (as : List Ref) (fresh : Ref) (off : Nat) : ∀ a ∈ pick as f
 theorem pick_length (as : List Ref) (fresh : Ref) (off : Nat) : (pick as fresh off).length = 5 := by
   simp [pick]
 
-theorem demo_respects (S : List Ref) : Respects S demoOps := by
+/-- the demo operators satisfy the classical frame condition … -/
+theorem demo_frame : Frame demoOps := by
   constructor
-  · intro k s h as t tm hS has
-    have hlen : (bump h as ++ [7]).length = h.length + 1 := by simp [bump_length]
-    have hget : ∀ x ∈ S, (bump h as ++ [7])[x]? = h[x]? := by
-      intro x hx
-      rw [List.getElem?_append_left (by rw [bump_length]; exact hS x hx)]
-      exact bump_get h as x (fun hin => (has x hin).2 hx)
-    have hle : h.length ≤ (bump h as ++ [7]).length := by rw [hlen]; omega
-    have hfresh : h.length < (bump h as ++ [7]).length ∧ h.length ∉ S :=
-      ⟨by rw [hlen]; omega, fun hin => absurd (hS _ hin) (lt_irrefl _)⟩
-    have hpick : ∀ off, ∀ a ∈ pick as h.length off, a < (bump h as ++ [7]).length ∧ a ∉ S := by
-      intro off a ha
-      rcases pick_mem as h.length off a ha with hin | rfl
-      · exact ⟨lt_of_lt_of_le (has a hin).1 hle, (has a hin).2⟩
-      · exact hfresh
+  · intro k s h as t tm wf has
+    have hlen : (bump h as ++ [(⟨7, []⟩ : Cell Nat)]).length = h.length + 1 := by simp [bump_length]
+    have hle : h.length ≤ (bump h as ++ [(⟨7, []⟩ : Cell Nat)]).length := by rw [hlen]; exact Nat.le_succ _
+    have hwf : WFH (bump h as ++ [(⟨7, []⟩ : Cell Nat)]) := by
+      have : WFH (bump h as) := by
+        intro a c hc r hr
+        obtain ⟨c0, h0, e⟩ := bump_refs h as a c hc
+        rw [bump_length]
+        exact wf a c0 h0 r (e ▸ hr)
+      apply this.append
+      intro c hc r hr
+      simp only [List.mem_singleton] at hc
+      subst hc
+      simp at hr
+    have hsame : ∀ x, x < h.length → (∀ a ∈ as, ¬ Reach h a x) →
+        (bump h as ++ [(⟨7, []⟩ : Cell Nat)])[x]? = h[x]? := by
+      intro x hx hnr
+      rw [List.getElem?_append_left (by rw [bump_length]; exact hx)]
+      exact bump_outside h as x hnr
+    have hrefs : ∀ (x : Nat) (c : Cell Nat), (bump h as ++ [(⟨7, []⟩ : Cell Nat)])[x]? = some c →
+        h[x]? = some c ∨ ∀ r ∈ c.refs, (∃ a ∈ as, Reach h a r) ∨ h.length ≤ r := by
+      intro x c hc
+      by_cases hx : x < h.length
+      · rw [List.getElem?_append_left (by rw [bump_length]; exact hx)] at hc
+        obtain ⟨c0, h0, e⟩ := bump_refs h as x c hc
+        -- the cell is unchanged unless it is the target; in both cases its references are the old ones
+        by_cases hreach : ∃ a ∈ as, Reach h a x
+        · right
+          intro r hr
+          obtain ⟨a, ha, hax⟩ := hreach
+          exact Or.inl ⟨a, ha, hax.snoc h0 (e ▸ hr)⟩
+        · left
+          rw [← bump_outside h as x (fun a ha hr => hreach ⟨a, ha, hr⟩)]
+          exact hc
+      · rw [List.getElem?_append_right (by rw [bump_length]; exact not_lt.mp hx)] at hc
+        right
+        intro r hr
+        have : c = ⟨7, []⟩ := by
+          have := List.mem_of_getElem? hc
+          simpa using this
+        subst this
+        simp at hr
+    have hfresh : h.length < (bump h as ++ [(⟨7, []⟩ : Cell Nat)]).length := by rw [hlen]; exact Nat.lt_succ_self _
+    have hpick : ∀ off, ∀ r ∈ pick as h.length off, r < (bump h as ++ [(⟨7, []⟩ : Cell Nat)]).length ∧
+        ((∃ a ∈ as, Reach h a r) ∨ h.length ≤ r) := by
+      intro off r hr
+      rcases pick_mem as h.length off r hr with hin | rfl
+      · exact ⟨lt_of_lt_of_le (has r hin) hle, Or.inl ⟨r, hin, .refl r⟩⟩
+      · exact ⟨hfresh, Or.inr (le_refl _)⟩
     cases k
-    · refine ⟨hle, hget, ?_, by simp [demoOps, arity, pick_length]⟩
-      intro a ha
-      rcases List.mem_cons.mp ha with rfl | ha
-      · exact hfresh
-      · exact hpick 0 a ha
-    · exact ⟨hle, hget, hpick 1,
-        by simp [demoOps, arity, pick_length]⟩
-    · exact ⟨hle, hget, hpick 0,
-        by simp [demoOps, arity, pick_length]⟩
-    · exact ⟨hle, hget, hpick 0,
-        by simp [demoOps, arity, pick_length]⟩
-  · intro k s h as t tm rp _ _
-    exact ⟨le_refl _, fun _ _ => rfl⟩
+    · refine ⟨hle, hwf, hsame, hrefs, ?_, by simp [demoOps, arity, pick_length]⟩
+      intro r hr
+      rcases List.mem_cons.mp hr with rfl | hr
+      · exact ⟨hfresh, Or.inr (le_refl _)⟩
+      · exact hpick 0 r hr
+    · exact ⟨hle, hwf, hsame, hrefs, hpick 1, by simp [demoOps, arity, pick_length]⟩
+    · exact ⟨hle, hwf, hsame, hrefs, hpick 0, by simp [demoOps, arity, pick_length]⟩
+    · exact ⟨hle, hwf, hsame, hrefs, hpick 0, by simp [demoOps, arity, pick_length]⟩
+  · intro k s h as t tm rp wf _
+    exact ⟨le_refl _, wf, fun _ _ _ => rfl, fun x c hc => Or.inl hc⟩
 
-/-- a programme whose five start containers were given by the caller -/
+/-- … hence respect any region -/
+theorem demo_respects (S : List Ref) : Respects S demoOps := demo_frame.respects S
+
+/-! ### concrete states -/
+
+/-- five start containers (cells 0–4), each with one object below it (cells 5–9) -/
 def given : State Unit Nat :=
-  { heap := [10, 20, 30, 40, 50], regs := fun _ => none, start := [some 0, some 1, some 2, some 3, some 4],
-    t := 0, rep := 3, ost := (), trace := [], bad := false }
+  { heap := [⟨10, [5]⟩, ⟨20, [6]⟩, ⟨30, [7]⟩, ⟨40, [8]⟩, ⟨50, [9]⟩, ⟨1, []⟩, ⟨2, []⟩, ⟨3, []⟩, ⟨4, []⟩, ⟨5, []⟩],
+    n0 := 10, regs := fun _ => none, start := [some 0, some 1, some 2, some 3, some 4],
+    t := 0, rep := 3, ngen := none, ost := (), trace := [], bad := false }
 
 /-- a programme that still has to be initialised (one start container missing) -/
 def partly : State Unit Nat :=
-  { heap := [10, 20, 30, 40], regs := fun _ => none, start := [some 0, some 1, none, some 2, some 3],
-    t := 0, rep := 0, ost := (), trace := [], bad := false }
+  { heap := [⟨10, []⟩, ⟨20, []⟩, ⟨30, []⟩, ⟨40, []⟩], n0 := 4, regs := fun _ => none,
+    start := [some 0, some 1, none, some 2, some 3],
+    t := 0, rep := 0, ngen := none, ost := (), trace := [], bad := false }
+
+theorem wfh_of_all (h : Heap (Cell Nat)) (hall : h.all (fun c => c.refs.all (fun r => decide (r < h.length))) = true) :
+    WFH h := by
+  intro a c hc r hr
+  simp only [List.all_eq_true, decide_eq_true_eq] at hall
+  exact hall c (List.mem_of_getElem? hc) r hr
+
+theorem region_lt_length {h : Heap (Cell Nat)} {S : List Ref} (wf : WFH h) (hS : ∀ s ∈ S, s < h.length) :
+    ∀ x, InReg h S x → x < h.length := by
+  rintro x ⟨s, hs, hr⟩
+  exact hr.valid wf (hS s hs)
+
+theorem iso_of_all_in {h : Heap (Cell Nat)} {S : List Ref} (hall : ∀ x, x < h.length → InReg h S x) : Iso h S := by
+  intro x c hc hx
+  exact absurd (hall x (List.getElem?_eq_some_iff.mp hc).1) hx
+
+theorem iso_of_norefs {h : Heap (Cell Nat)} {S : List Ref} (hno : ∀ c ∈ h, c.refs = []) : Iso h S := by
+  intro x c hc _ r hr
+  rw [hno c (List.mem_of_getElem? hc)] at hr
+  simp at hr
+
+theorem given_wf : WFH given.heap := wfh_of_all _ (by decide)
+
+theorem given_all_in : ∀ x, x < given.heap.length → InReg given.heap [0, 1, 2, 3, 4] x := by
+  intro x hx
+  have hx' : x < 10 := hx
+  by_cases h5 : x < 5
+  · exact InReg.of_mem (by interval_cases x <;> simp)
+  · have h6 : 5 ≤ x := not_lt.mp h5
+    refine ⟨x - 5, by interval_cases x <;> simp, ?_⟩
+    interval_cases x
+    · exact .step (c := ⟨10, [5]⟩) rfl (by simp) (.refl _)
+    · exact .step (c := ⟨20, [6]⟩) rfl (by simp) (.refl _)
+    · exact .step (c := ⟨30, [7]⟩) rfl (by simp) (.refl _)
+    · exact .step (c := ⟨40, [8]⟩) rfl (by simp) (.refl _)
+    · exact .step (c := ⟨50, [9]⟩) rfl (by simp) (.refl _)
+
+theorem given_valid : ∀ s ∈ [0, 1, 2, 3, 4], s < given.heap.length := by
+  intro s hs
+  simp only [List.mem_cons, List.not_mem_nil, or_false] at hs
+  rcases hs with h | h | h | h | h <;> (subst h; decide)
+
+theorem given_refs (ops : Ops Unit Nat) : startRefs ops given = [0, 1, 2, 3, 4] := by
+  simp [startRefs, given]
 
 theorem given_ready (ops : Ops Unit Nat) : Ready ops given := by
-  refine ⟨rfl, rfl, ?_, ?_, ?_⟩
-  · intro a ha
-    simp only [given, List.mem_cons, Option.some.injEq, List.not_mem_nil, or_false] at ha
-    rcases ha with h | h | h | h | h <;> (cases h; decide)
-  · intro h; simp [given] at h
+  have hH : startHeap ops given = given.heap := by simp [startHeap, given]
+  have hN : startN0 ops given = 10 := by simp [startN0, given]
+  have hvalid : ∀ s ∈ [0, 1, 2, 3, 4], s < given.heap.length := by
+    intro s hs
+    simp only [List.mem_cons, List.not_mem_nil, or_false] at hs
+    rcases hs with h | h | h | h | h <;> (subst h; decide)
+  refine ⟨rfl, rfl, by rw [given_refs]; rfl, by rw [hH], by rw [hH]; exact given_wf, by rw [hH, hN]; decide,
+    ?_, ?_, ?_⟩
+  · rw [hH, hN, given_refs]
+    exact region_lt_length given_wf hvalid
+  · rw [hH, given_refs]; exact iso_of_all_in given_all_in
   · intro r a h; simp [given] at h
+
+theorem given_good (d : Nat) :
+    Good d [0, 1, 2, 3, 4] (vals d given.heap [0, 1, 2, 3, 4]) given := by
+  have hvalid : ∀ s ∈ [0, 1, 2, 3, 4], s < given.heap.length := by
+    intro s hs
+    simp only [List.mem_cons, List.not_mem_nil, or_false] at hs
+    rcases hs with h | h | h | h | h <;> (subst h; decide)
+  refine ⟨rfl, rfl, given_wf, by decide, region_lt_length given_wf hvalid, iso_of_all_in given_all_in, rfl, ?_⟩
+  intro r a h; simp [given] at h
 
 theorem partly_ready : Ready demoOps partly := by
-  refine ⟨rfl, rfl, ?_, ?_, ?_⟩
-  · intro a ha
-    simp only [partly, List.mem_cons, Option.some.injEq, List.not_mem_nil, or_false] at ha
-    rcases ha with h | h | h | h | h <;> (cases h; try decide)
-  · intro _
-    refine ⟨by simp [demoOps], by simp [demoOps, partly], ?_⟩
-    intro a ha
-    simp only [demoOps, partly, List.mem_map, List.mem_range] at ha
-    obtain ⟨i, hi, rfl⟩ := ha
-    exact Nat.add_lt_add_right hi 4
+  have hall : partly.start.all Option.isSome = false := by decide
+  have hH : startHeap demoOps partly =
+      partly.heap ++ [⟨1, []⟩, ⟨2, []⟩, ⟨3, []⟩, ⟨4, []⟩, ⟨5, []⟩] := by simp [startHeap, hall, demoOps]
+  have hN : startN0 demoOps partly = 9 := by simp [startN0, demoOps, partly]
+  have hR : startRefs demoOps partly = [4, 5, 6, 7, 8] := by simp [startRefs, demoOps, partly]; decide
+  have hwf : WFH (partly.heap ++ [⟨1, []⟩, ⟨2, []⟩, ⟨3, []⟩, ⟨4, []⟩, ⟨5, []⟩]) := wfh_of_all _ (by decide)
+  have hvalid : ∀ s ∈ [4, 5, 6, 7, 8], s < (partly.heap ++ [(⟨1, []⟩ : Cell Nat), ⟨2, []⟩, ⟨3, []⟩, ⟨4, []⟩, ⟨5, []⟩]).length := by
+    intro s hs
+    simp only [List.mem_cons, List.not_mem_nil, or_false] at hs
+    rcases hs with h | h | h | h | h <;> (subst h; decide)
+  refine ⟨rfl, rfl, by rw [hR]; rfl, by rw [hH]; simp, by rw [hH]; exact hwf, by rw [hH, hN]; decide, ?_, ?_, ?_⟩
+  · rw [hH, hN, hR]
+    exact region_lt_length hwf hvalid
+  · rw [hH, hR]
+    apply iso_of_norefs
+    intro c hc
+    simp only [partly, List.cons_append, List.nil_append, List.mem_cons, List.not_mem_nil, or_false] at hc
+    rcases hc with h | h | h | h | h | h | h | h | h <;> (subst h; rfl)
   · intro r a h; simp [partly] at h
 
-theorem given_good : Good [0, 1, 2, 3, 4] [some 10, some 20, some 30, some 40, some 50] given := by
-  refine ⟨rfl, rfl, ?_, rfl, ?_⟩
-  · intro s hs
-    simp only [List.mem_cons, List.not_mem_nil, or_false] at hs
-    rcases hs with h | h | h | h | h <;> (cases h; decide)
-  · intro r a h; simp [given] at h
+/-! ### schedules -/
+
+/-- the canonical skeleton with the documented `ngen is None` default in place (the proposed patch) -/
+def patched : Schedule := { canonical with evolvePre := [.ngenDefault, .initIfNeeded] }
+
+def kwA (m : Reg) : List (Kw × Reg) :=
+  [(.misc, m), (.gmod, .gmod), (.genome, .genome), (.bval, .bval), (.geno, .geno), (.pheno, .pheno)]
+
+/-- a differently written programme with the same dataflow: the deep copies in another order, the
+    clock zeroed in `evolve` instead of `reset`, other local variable names, keyword arguments in
+    another order, results first bound to locals and then moved, a redundant copy, extra no-ops -/
+def rewritten : Schedule where
+  evolvePre := [.skip, .initIfNeeded, .skip]
+  evolveRep := [.callReset, .incRep, .setT0, .newDict (.loc 9), .skip,
+                .call .evaluate (kwA (.loc 9)) [.loc 10, .loc 11, .loc 12, .loc 13, .loc 14],
+                .move .gmod (.loc 14), .move .genome (.loc 10), .move .geno (.loc 11), .move .pheno (.loc 12),
+                .move .bval (.loc 13),
+                .log .initialize true (kwA (.loc 9)),
+                .tick, .callAdvance, .skip]
+  evolvePost := [.skip]
+  reset := [.copyStart .gmod 4, .copyStart (.loc 20) 2, .copyStart .bval 3, .copyStart .genome 1,
+            .copyStart .geno 1, .move .pheno (.loc 20), .copyStart .genome 0]
+  advancePre := []
+  advanceGen := [.newDict (.loc 3), .newDict (.loc 4), .newDict (.loc 5), .newDict (.loc 6),
+                 .call .pselect (kwA (.loc 3)) (.loc 7 :: five),
+                 .log .pselect false ((.mcfg, .loc 7) :: kwA (.loc 3)),
+                 .move (.loc 8) (.loc 7),
+                 .call .mate (kwA (.loc 4) ++ [(.mcfg, .loc 8)]) five,
+                 .log .mate false (kwA (.loc 4) ++ [(.mcfg, .loc 7)]),
+                 .call .evaluate (kwA (.loc 5)) five,
+                 .log .evaluate false (kwA (.loc 5)),
+                 .call .sselect (kwA (.loc 6)) five,
+                 .log .sselect false (kwA (.loc 6)),
+                 .skip, .tick]
+  advancePost := [.skip]
+
+/-- the canonical skeleton with a *shallow* copy of one start container (`dict(self.start_genome)`) -/
+def shallow : Schedule :=
+  { canonical with reset := [.shallowCopyStart .genome 0, .copyStart .geno 1, .copyStart .pheno 2,
+                             .copyStart .bval 3, .copyStart .gmod 4, .setT0] }
 
 end Demo
 end Program
